@@ -234,7 +234,7 @@ def all_strings(maxlen, alpha="abcx"):
         out += ["".join(t) for t in itertools.product(alpha, repeat=n)]
     return out
 
-FIXED_RE = [("(ab|a|bc)*", "c:61-61,c:62-62,.,c:61-61,|,c:62-62,c:63-63,.,|,*"), ("(b*)*c", "c:62-62,*,*,c:63-63,."), ("[g-tj-z]", "c:67-7a"), ("[a-cb-z]", "c:61-7a"), ("[b-da-a]", "c:61-64"), ("[a-cx-za-b]", "c:61-63.78-7a"),
+FIXED_RE = [("[a-d]*[^x]", "c:61-64,*,n:78-78,."), ("[ab]*[^xy]", "c:61-62,*,n:78-79,."), ("(ab|a|bc)*", "c:61-61,c:62-62,.,c:61-61,|,c:62-62,c:63-63,.,|,*"), ("(b*)*c", "c:62-62,*,*,c:63-63,."), ("[g-tj-z]", "c:67-7a"), ("[a-cb-z]", "c:61-7a"), ("[b-da-a]", "c:61-64"), ("[a-cx-za-b]", "c:61-63.78-7a"),
             ("[m-pn-qa-z]", "c:61-7a"), ("(a|ab)(c|bcd)?", "c:61-61,c:61-61,c:62-62,.,|,c:63-63,c:62-62,c:63-63,.,c:64-64,.,|,?,."),
             ("(a*)*b", "c:61-61,*,*,c:62-62,."), ("(a|b)*abb", "c:61-61,c:62-62,|,*,c:61-61,.,c:62-62,.,c:62-62,.")]
 FIXED_STR = ["x", "y", "g", "t", "u", "z", "a", "c", "d", "m", "q", "ab", "abc", "abcd", "abb", "aabb", "b", "aab", ""]
